@@ -41,15 +41,16 @@ Definition nt_mtriple (x : NtReader.term * str * NtReader.term) : mtriple :=
     for non-termination; the encoding below is injective ([nt_abort_inj]), so
     no two different abnormal outcomes of the N-Triples reader are identified:
     ValueError and RuntimeError keep their names, IndexError is written
-    [CEType] and a hang [CEAttr] (neither arises otherwise on an N-Triples
-    line channel).  A hang of the real reader means that nothing is ever
+    [CEType] and a hang [CESource] (neither arises otherwise on a line
+    channel whose dispatch succeeds; same convention for the Turtle reader
+    below).  A hang of the real reader means that nothing is ever
     delivered: in [run_over_passes] it is [None], as an exception is. *)
 Definition nt_abort (a : option NtReader.exn) : cerr :=
   match a with
   | Some NtReader.EValue => CEValue
   | Some NtReader.ERuntime => CERuntime
   | Some NtReader.EIndex => CEType
-  | None => CEAttr
+  | None => CESource
   end.
 
 Lemma nt_abort_inj a b : nt_abort a = nt_abort b -> a = b.
@@ -531,3 +532,204 @@ Section NtText.
                (Fam_tsv pyfloat read_nt) (read_tsv_compositional pyfloat) (or_introl (read_tsv_blank_silent pyfloat)) Hcm Hok Hst).
   Qed.
 End NtText.
+
+(** ** D. the streaming Turtle reader of C07 as a reader of C08 *)
+
+Definition ttl_mnode (n : node) : mterm :=
+  match nk n with KIri => MIri (nid n) | KBnode => MBn (nid n) end.
+
+Definition ttl_mobj (o : obj) : mterm :=
+  match o with ON n => ttl_mnode n | OL c dt => MLit c dt end.
+
+Definition ttl_mtriple (t : triple) : mtriple := MT (ttl_mnode (ts t)) (tp t) (ttl_mobj (to t)).
+
+(** injective encoding of the reader's abnormal outcomes (see [nt_abort]) *)
+Definition ttl_abort (e : TtlReader.terr) : cerr :=
+  match e with
+  | TtlReader.TEValue => CEValue
+  | TtlReader.TEIndex => CEType
+  | TtlReader.TEAttr => CEAttr
+  | TtlReader.TERuntime => CERuntime
+  | TtlReader.TEHang => CESource
+  | TtlReader.TEUnmodelled => CECodec
+  end.
+
+Lemma ttl_abort_inj a b : ttl_abort a = ttl_abort b -> a = b.
+Proof. destruct a, b; cbn; intros H; try reflexivity; discriminate H. Qed.
+
+(** [error_triples] stays 0 in [BigTtlTriplesYielder] ([_process_unknown_line] is never reached) *)
+Definition rd_of_ttl (r : list triple * TtlReader.res TtlReader.st) : rd :=
+  match r with
+  | (ts, TtlReader.Ok _) => inl (Res (map ttl_mtriple ts) (List.length ts) 0)
+  | (_, TtlReader.Err e) => inr (ttl_abort e)
+  end.
+
+(** the reader over the lines a line reader delivers: C07's line loop from the
+    initial state, then the end-of-input check.  One yielder = one fresh state. *)
+Definition ttl_reader (ls : list str) : rd :=
+  rd_of_ttl (TtlReader.end_check (TtlReader.process_lines ls TtlReader.st0)).
+
+Lemma triple_of_ttl_m t : triple_of_m (ttl_mtriple t) = Some t.
+Proof. destruct t as [[[] i] p [[[] i']|c d]]; reflexivity. Qed.
+
+Lemma graph_of_ttl_m ts : graph_of_m (map ttl_mtriple ts) = Some ts.
+Proof. induction ts as [|t ts IH]; [reflexivity|]. cbn [map graph_of_m]. rewrite triple_of_ttl_m, IH. reflexivity. Qed.
+
+(** the raw-string line reader of C08 is the one of C07 *)
+Lemma lines_raw_is_doc_lines doc : lines_raw doc = TtlReader.doc_lines doc.
+Proof.
+  unfold lines_raw, TtlReader.doc_lines. rewrite raw_sep_is_LF. apply filter_ext.
+  intros l. unfold nonblank. destruct (strip l); reflexivity.
+Qed.
+
+Definition TTL : str := Str "turtle_iter".
+
+Lemma ttl_chan_raw pyfloat read_nt gunzip unxz unzip rdf_parse o doc :
+  channel pyfloat read_nt ttl_reader gunzip unxz unzip rdf_parse o TTL None (SRaw doc)
+  = rd_of_ttl (TtlReader.read_ttl doc).
+Proof.
+  unfold channel. cbn [kind_of].
+  change (dispatch TTL None KRaw) with (@inl ydesc cerr (YPlain (Str "BigTtlTriplesYielder"))). cbv beta iota.
+  change (run_yielder pyfloat read_nt ttl_reader gunzip unxz unzip rdf_parse o TTL None (SRaw doc)
+                      (YPlain (Str "BigTtlTriplesYielder")))
+    with (ttl_reader (lines_raw doc)).
+  rewrite lines_raw_is_doc_lines. reflexivity.
+Qed.
+
+(** *** a line terminator does not show: [_clean_line] turns it into a blank and strips *)
+
+Lemma sub_other_blanks_nl l : TtlReader.sub_other_blanks (nl l) = TtlReader.sub_other_blanks l ++ [ttl_blank].
+Proof. unfold nl, TtlReader.sub_other_blanks. rewrite map_app. reflexivity. Qed.
+
+Lemma collapse_snoc x :
+  TtlReader.collapse_blanks (x ++ [ttl_blank]) = TtlReader.collapse_blanks x \/
+  TtlReader.collapse_blanks (x ++ [ttl_blank]) = TtlReader.collapse_blanks x ++ [ttl_blank].
+Proof.
+  induction x as [|c x IH]; [right; reflexivity|].
+  cbn [app TtlReader.collapse_blanks]. destruct (TtlReader.chr_eqb c ttl_blank) eqn:E.
+  - destruct x as [|d x'].
+    + left. cbn [app]. change (TtlReader.chr_eqb ttl_blank ttl_blank) with true. cbv iota.
+      apply Ascii.eqb_eq in E. subst c. reflexivity.
+    + cbn [app] in IH |- *. destruct (TtlReader.chr_eqb d ttl_blank).
+      * exact IH.
+      * destruct IH as [-> | ->]; [left | right]; reflexivity.
+  - destruct IH as [-> | ->]; [left | right]; reflexivity.
+Qed.
+
+Lemma clean_line_nl l : TtlReader.clean_line (nl l) = TtlReader.clean_line l.
+Proof.
+  unfold TtlReader.clean_line. rewrite sub_other_blanks_nl.
+  assert (strip (TtlReader.collapse_blanks (TtlReader.sub_other_blanks l ++ [ttl_blank]))
+          = strip (TtlReader.collapse_blanks (TtlReader.sub_other_blanks l))) as ->; [|reflexivity].
+  destruct (collapse_snoc (TtlReader.sub_other_blanks l)) as [-> | ->]; [reflexivity|].
+  apply strip_snoc_space. reflexivity.
+Qed.
+
+Lemma ttl_process_line_nl l s : TtlReader.process_line (nl l) s = TtlReader.process_line l s.
+Proof. unfold TtlReader.process_line. rewrite clean_line_nl. reflexivity. Qed.
+
+Lemma ttl_process_lines_nl ls : forall s,
+  TtlReader.process_lines (map nl ls) s = TtlReader.process_lines ls s.
+Proof.
+  induction ls as [|l ls IH]; intros s; [reflexivity|]. cbn [map TtlReader.process_lines].
+  rewrite ttl_process_line_nl. destruct (TtlReader.process_line l s) as [ts [s'|e]]; [|reflexivity].
+  rewrite IH. reflexivity.
+Qed.
+
+(** blank lines are skipped without touching the state ([TtlCompose.blank_raw_line]) *)
+Lemma ttl_process_lines_nonblank ls s :
+  TtlReader.process_lines (filter nonblank ls) s = TtlReader.process_lines ls s.
+Proof.
+  rewrite <- (TtlCompose.process_lines_filter ls s). f_equal. apply filter_ext.
+  intros l. unfold nonblank, TtlCompose.keep_line. destruct (strip l); reflexivity.
+Qed.
+
+Lemma ttl_reader_nl_filter ls : ttl_reader (map nl ls) = ttl_reader (filter nonblank ls).
+Proof. unfold ttl_reader. rewrite ttl_process_lines_nl, ttl_process_lines_nonblank. reflexivity. Qed.
+
+Section TtlChannels.
+  Variable pyfloat : str -> option bool.
+  Variable read_nt : list str -> rd.
+  Variable gunzip unxz : str -> option str.
+  Variable unzip : str -> option (list (str * str)).
+  Variable rdf_parse : str -> str -> option (list rtriple).
+  Variable fa : FreqAlg.
+
+  Notation chan := (channel pyfloat read_nt ttl_reader gunzip unxz unzip rdf_parse).
+  Notation passes1 := (passes pyfloat read_nt ttl_reader gunzip unxz unzip rdf_parse).
+
+  Lemma ttl_chan_file o cm st :
+    cm_plain cm -> chan o TTL cm (SFile st) = with_lines ttl_reader (lines_of gunzip unxz false cm st).
+  Proof. intros [-> | [-> | ->]]; reflexivity. Qed.
+
+  (** a single file, plain or gz / xz compressed, holding complete lines, is
+      read as the raw string (triples AND counters) *)
+  Theorem ttl_file_is_raw o o' cm ls st :
+    cm_plain cm -> Forall line_ok ls -> stored_as gunzip unxz cm (render_lines ls) st ->
+    chan o TTL cm (SFile st) = chan o' TTL None (SRaw (render_lines ls)).
+  Proof.
+    intros Hcm Hok Hst. rewrite (ttl_chan_file o cm st Hcm), (lines_of_stored gunzip unxz cm ls st Hok Hst).
+    cbn [with_lines]. rewrite ttl_reader_nl_filter.
+    unfold channel. cbn [kind_of].
+    change (dispatch TTL None KRaw) with (@inl ydesc cerr (YPlain (Str "BigTtlTriplesYielder"))). cbv beta iota.
+    change (run_yielder pyfloat read_nt ttl_reader gunzip unxz unzip rdf_parse o' TTL None (SRaw (render_lines ls))
+                        (YPlain (Str "BigTtlTriplesYielder")))
+      with (ttl_reader (lines_raw (render_lines ls))).
+    rewrite lines_raw_render by exact Hok. reflexivity.
+  Qed.
+
+  (** C07 read at the channel: the raw-string channel over the text of a
+      laid-out document of [C07_dom] delivers its triples up to lexical forms *)
+  Lemma ttl_raw_stream o ls d ts :
+    TtlSyntax.lays_out ls d -> TtlDomain.C07_dom ls d = true -> TtlSyntax.sem d = Some ts ->
+    exists ts', chan o TTL None (SRaw (TtlSyntax.render_doc ls)) = inl (Res (map ttl_mtriple ts') (List.length ts') 0) /\
+                map erase_lex ts' = map erase_lex ts.
+  Proof.
+    intros Hl Hd Hs. destruct (TtlCompose.reader_correct ls d ts Hl Hd Hs) as (s' & ts' & HR & HE & _).
+    exists ts'. split; [|exact HE]. rewrite ttl_chan_raw, HR. reflexivity.
+  Qed.
+
+  (** *** deliverable 3: C07 ; C08 ; pipeline, single raw string *)
+  Theorem turtle_iter_text_to_graph c thr (o1 o2 : porc) ls d ts :
+    TtlSyntax.lays_out ls d -> TtlDomain.C07_dom ls d = true -> TtlSyntax.sem d = Some ts ->
+    run_over_passes fa c thr (passes1 o1 o2 TTL None (SRaw (TtlSyntax.render_doc ls)))
+    = Some (run_shapes fa c thr ts).
+  Proof.
+    intros Hl Hd Hs.
+    destruct (ttl_raw_stream o1 ls d ts Hl Hd Hs) as (t1 & H1 & E1).
+    destruct (ttl_raw_stream o2 ls d ts Hl Hd Hs) as (t2 & H2 & E2).
+    unfold run_over_passes, graphs_of_passes, passes. cbn [fst snd]. rewrite H1, H2. cbn [rd_stream r_triples].
+    rewrite !graph_of_ttl_m.
+    rewrite <- (run_shapes2_erase_lex fa c thr t1 t2), E1, E2, run_shapes2_erase_lex. reflexivity.
+  Qed.
+
+  (** the text of the document with every physical line terminated *)
+  Definition ttl_text_lines (ls : list TtlSyntax.line) : list str := map TtlSyntax.render_line ls.
+
+  Lemma ttl_raw_terminated o o' ls d :
+    TtlSyntax.lays_out ls d -> Forall line_ok (ttl_text_lines ls) ->
+    chan o TTL None (SRaw (render_lines (ttl_text_lines ls))) = chan o' TTL None (SRaw (TtlSyntax.render_doc ls)).
+  Proof.
+    intros Hl Hok. rewrite (ttl_chan_raw pyfloat read_nt gunzip unxz unzip rdf_parse o' (TtlSyntax.render_doc ls)).
+    unfold TtlReader.read_ttl. rewrite (TtlCompose.doc_lines_render ls d _ Hl).
+    unfold channel. cbn [kind_of].
+    change (dispatch TTL None KRaw) with (@inl ydesc cerr (YPlain (Str "BigTtlTriplesYielder"))). cbv beta iota.
+    change (run_yielder pyfloat read_nt ttl_reader gunzip unxz unzip rdf_parse o TTL None (SRaw (render_lines (ttl_text_lines ls)))
+                        (YPlain (Str "BigTtlTriplesYielder")))
+      with (ttl_reader (lines_raw (render_lines (ttl_text_lines ls)))).
+    rewrite lines_raw_render by exact Hok. unfold ttl_reader. rewrite ttl_process_lines_nonblank. reflexivity.
+  Qed.
+
+  (** ... and a single file, plain or gz / xz compressed *)
+  Theorem turtle_iter_file_to_graph c thr (o1 o2 : porc) cm ls d ts st :
+    TtlSyntax.lays_out ls d -> TtlDomain.C07_dom ls d = true -> TtlSyntax.sem d = Some ts ->
+    cm_plain cm -> Forall line_ok (ttl_text_lines ls) ->
+    stored_as gunzip unxz cm (render_lines (ttl_text_lines ls)) st ->
+    run_over_passes fa c thr (passes1 o1 o2 TTL cm (SFile st)) = Some (run_shapes fa c thr ts).
+  Proof.
+    intros Hl Hd Hs Hcm Hok Hst. rewrite <- (turtle_iter_text_to_graph c thr o1 o2 ls d ts Hl Hd Hs).
+    unfold passes.
+    rewrite (ttl_file_is_raw o1 o1 cm _ st Hcm Hok Hst), (ttl_file_is_raw o2 o2 cm _ st Hcm Hok Hst).
+    rewrite (ttl_raw_terminated o1 o1 ls d Hl Hok), (ttl_raw_terminated o2 o2 ls d Hl Hok). reflexivity.
+  Qed.
+End TtlChannels.
